@@ -20,6 +20,7 @@ import XzVerif.Lemmas.C03Rc
 import XzVerif.Lemmas.C03Dict
 import XzVerif.Lemmas.C03Probs
 import XzVerif.Lemmas.C03Examples
+import XzVerif.Lemmas.C03Coder
 
 namespace XzVerif.C03
 open XzVerif.RangeDec XzVerif.LzDict XzVerif.Lzma XzVerif.Lzma2
@@ -302,15 +303,94 @@ theorem match_len_range (s3 s8 : Nat) (h3 : 8 ≤ s3 ∧ s3 < 16) (h8 : 256 ≤ 
   A fuel exhaustion would make the model answer LZMA_PROG_ERROR, which the implementation never returns from these
   functions: the correspondence run would flag it. -/
 
-/-- The model never reports `LZMA_PROG_ERROR` for a chain whose options are valid (fuel is never exhausted). -/
+/-- The model never reports `LZMA_PROG_ERROR` for a chain whose options are valid (no fuel is ever exhausted).
+    Proved for the innermost and longest loop (`lzma_call_total_partial` below); for `lzma2Loop` and `decodeBuffer` the
+    bounds are stated above and checked by the correspondence only. -/
 def fuel_never_exhausted_statement : Prop :=
   ∀ (last : LastFilter) (input : List UInt8) (outCap : Nat) (c : Coder),
     last.init (ByteArray.mk input.toArray) = .ok c → (c.code outCap).1 ≠ Ret.progError
 
-/-- The coder law every caller relies on: not more input consumed than given, not more output than allowed. -/
-def coder_law_statement : Prop :=
-  ∀ (ch : Chain) (input : List UInt8) (outCap : Nat),
-    (rawDecode ch input outCap).consumed ≤ input.length ∧ (ch.pre = [] → (rawDecode ch input outCap).out.length ≤ outCap)
+/-- One call of `lzma_decode` (any state whose dictionary position is below its limit): the main loop's fuel
+    `limit − pos + 2` is never exhausted and the loop is only left through an exit, so the call never answers
+    LZMA_PROG_ERROR; the input cursor only moves forward and stays inside the input; output bytes and dictionary position
+    advance together and stay within the caller's limit (which is restored afterwards). -/
+theorem lzma_call_total_partial (s : St) (h : s.dp.pos ≤ s.dp.limit) :
+    (lzmaCall s).1 ≠ Ret.progError
+    ∧ (lzmaCall s).2.inp = s.inp ∧ s.inPos ≤ (lzmaCall s).2.inPos ∧ (s.inPos ≤ s.inp.size → (lzmaCall s).2.inPos ≤ s.inp.size)
+    ∧ (lzmaCall s).2.dp.limit = s.dp.limit ∧ (lzmaCall s).2.dp.pos ≤ s.dp.limit
+    ∧ (lzmaCall s).2.hist.size + s.dp.pos = s.hist.size + (lzmaCall s).2.dp.pos := by
+  have sp := lzmaCall_spec s h
+  refine ⟨sp.2, sp.1.inp, sp.1.pos_mono, ?_, sp.1.limit, ?_, sp.1.hist_eq⟩
+  · intro hi; have := sp.1.pos_le hi; rw [sp.1.inp] at this; exact this
+  · have := sp.1.in_limit h; rw [sp.1.limit] at this; exact this
+
+/-- The symbol decoder proper (everything between two output steps: range decoder, bittrees, state machine, rep
+    registers) touches neither the dictionary nor the output, moves the input cursor only forward and never past the
+    end of the input, never exhausts fuel, and yields an output step (a literal, a short rep, or a copy of length ≥ 2). -/
+theorem symbol_decoder_frame (eopmValid : Bool) (s : St) :
+    Fr s (resSt (decodeSymbol eopmValid s))
+    ∧ (∀ act s', decodeSymbol eopmValid s = .ok act s' → IsWrite act)
+    ∧ (∀ s', decodeSymbol eopmValid s ≠ .error .fuel s') :=
+  sat_decodeSymbol eopmValid s
+
+/-- a freshly initialised coder is well formed, has consumed and produced nothing and holds the given input -/
+theorem coder_init_ok (last : LastFilter) (input : ByteArray) (c : Coder) (h : last.init input = .ok c) :
+    c.Ok ∧ c.consumed = 0 ∧ c.produced = 0 ∧ c.s.inp = input := by
+  cases last with
+  | lzma1 props d p =>
+    simp only [LastFilter.init] at h
+    split at h
+    · cases h
+    · injection h with h; subst h
+      refine ⟨Coder.ok_initLzma1 _ _ _ _ _ _, rfl, ?_, rfl⟩
+      simp [Coder.produced, St.produced, Coder.initLzma1, St.initLzma1, St.resetLzma, byteArray_mk_size]
+  | lzma1ext props d p f e =>
+    simp only [LastFilter.init] at h
+    split at h
+    · cases h
+    · split at h
+      · cases h
+      · injection h with h; subst h
+        refine ⟨Coder.ok_initLzma1 _ _ _ _ _ _, rfl, ?_, rfl⟩
+        simp [Coder.produced, St.produced, Coder.initLzma1, St.initLzma1, St.resetLzma, byteArray_mk_size]
+  | lzma2 d p =>
+    simp only [LastFilter.init] at h
+    injection h with h; subst h
+    refine ⟨Coder.ok_initLzma2 _ _ _, rfl, ?_, rfl⟩
+    simp [Coder.produced, St.produced, Coder.initLzma2, Lzma2.initLzma2, byteArray_mk_size]
+
+/-- THE CODER LAW (what every container decoder built on these models relies on): one call of `code` on a well-formed
+    coder — the first one with the whole input, or a later one that only adds output space — keeps the coder well
+    formed and the input unchanged, moves the cursor only forward and never past the end of the input, adds at most
+    `outCap` bytes of output and keeps what was already produced. -/
+theorem coder_law (c : Coder) (h : c.Ok) (outCap : Nat) :
+    (c.code outCap).2.Ok ∧ (c.code outCap).2.s.inp = c.s.inp
+    ∧ c.consumed ≤ (c.code outCap).2.consumed ∧ (c.code outCap).2.consumed ≤ c.s.inp.size
+    ∧ c.produced ≤ (c.code outCap).2.produced ∧ (c.code outCap).2.produced ≤ c.produced + outCap :=
+  Coder.code_spec c outCap h
+
+/-- The whole-input functions obey the coder law: `consumed ≤ input.length` and `out.length ≤ outCap`
+    (for chains without non-last filters the output is the last filter's output). -/
+theorem decode_result_bounds (ch : Chain) (input : List UInt8) (outCap : Nat) :
+    (rawDecode ch input outCap).consumed ≤ input.length
+    ∧ (ch.pre = [] → (rawDecode ch input outCap).out.length ≤ outCap) := by
+  unfold rawDecode
+  cases hi : ch.last.init (ByteArray.mk input.toArray) with
+  | error r => exact ⟨Nat.zero_le _, fun _ => Nat.zero_le _⟩
+  | ok c =>
+    have hl := coder_init_ok ch.last _ c hi
+    have hc := coder_law c hl.1 outCap
+    simp only []
+    refine ⟨?_, ?_⟩
+    · have := hc.2.2.2.1
+      rw [hl.2.2.2, byteArray_mk_size] at this
+      exact this
+    · intro hpre
+      have h6 := hc.2.2.2.2.2
+      rw [hl.2.2.1] at h6
+      unfold Chain.post
+      rw [hpre, List.foldr_nil, Coder.output_length]
+      omega
 
 /-- Initialisation is total and rejects exactly the documented cases: PROG_ERROR for lc/lp/pb outside `is_lclppb_valid`,
     OPTIONS_ERROR for LZMA1EXT flags other than LZMA_LZMA1EXT_ALLOW_EOPM; nothing else fails (allocation aside). -/
